@@ -75,7 +75,10 @@ def check_case(case) -> Result:
         jump = max(abs(v - at) for v in vals)
         res.check("C12/continuous-at-bubble-point", jump, 1e-7 * abs(at), f"{name} near p_b={pb!r} values={vals} oil={o};")
     # ---- sample of pressures ----------------------------------------------------------------------
-    ps = sorted({15.0 + f * (2.5 * pb - 15.0) for f in case["fractions"]} | {pb, 0.5 * pb, 0.9 * pb, 1.5 * pb, 2.5 * pb, 15.0})
+    # ... plus pressures at relative distances 1e-2 .. 1e-8 on either side of the bubble point (a tolerance band around
+    # p_b - np.isclose, a fixed psi window - would show as a flat or wrong stretch there)
+    band = {pb * (1 - 10.0**-k) for k in (2, 3, 4, 5, 6, 8)} | {pb * (1 + 10.0**-k) for k in (2, 4, 6, 8)} | {pb - 0.5, pb - 3.0, pb + 0.5}
+    ps = sorted({15.0 + f * (2.5 * pb - 15.0) for f in case["fractions"]} | {pb, 0.5 * pb, 0.9 * pb, 1.5 * pb, 2.5 * pb, 15.0} | band)
     ps = [p for p in ps if 15.0 <= p <= 2.5 * pb]
     # the scalar calls below receive each pressure in the generated form (Python / numpy scalar of either kind, 0-d
     # array); integer forms carry whole-number pressures, float32 its own rounding
